@@ -824,3 +824,50 @@ func dateFrameRule(p *Prog, r *Report, rule string) {
 	}
 	r.Ob("date-frame:scanned", "-", nCalls >= 10 && nBad == 0, fmt.Sprintf("%d converter calls with both results bound, %d state variables fed from them, none in two frames", nCalls, len(fs)))
 }
+
+// ---------------------------------------------------------------- a due tillage is postponed only while a crop stands
+
+// tillagePostponement: the nitrogen routine moves a due tillage two days on while the current crop waits for its
+// automatic harvest.  "The crop stands" needs three facts: a sowing date is set, the day is not before it, and no
+// harvest date is set yet.  Without the second, a tillage between the previous harvest and a FIXED sowing date (set
+// from the start of the rotation entry) is pushed on every second day, through sowing and the whole season, until the
+// harvest is set and the "tillage inside the crop period" error ends the run.
+func tillagePostponement(p *Prog, r *Report, rule string) {
+	r.Rule(rule, "a due tillage is postponed only while a crop stands: every store that moves a tillage date forward in the nitrogen routine outside the harvest branch is guarded by 'a sowing date is set', 'today is not before the sowing date' and 'no harvest date is set'", 1)
+	x := walked(p, "hermes.Nitro")
+	if x == nil {
+		r.Ob("tillage:postponement", "-", false, "hermes.Nitro not found")
+		return
+	}
+	n := 0
+	for _, e := range x.Events {
+		if e.Kind != "assign" || e.Root != "GlobalVarsMain.EINTE" || !e.Val.MentionsRoot("GlobalVarsMain.EINTE") {
+			continue
+		}
+		d := stripVersions(e.Val.Sub(e.Old))
+		if c, ok := d.ConstInt(); !ok || c <= 0 {
+			continue
+		}
+		// only the "due today" postponement: guarded by day == date of the next tillage
+		due := e.HasGuard(func(c *Cond) bool {
+			return c.Kind == "cmp" && c.Op == token.EQL && c.P.MentionsRoot("GlobalVarsMain.EINTE") && strings.Contains(c.Key(), "zeit")
+		})
+		if !due {
+			continue
+		}
+		n++
+		set := e.HasGuard(func(c *Cond) bool {
+			return c.Kind == "cmp" && c.P.MentionsRoot("GlobalVarsMain.SAAT") && !strings.Contains(c.Key(), "zeit") && !c.P.MentionsRoot("GlobalVarsMain.EINTE") && (c.Op == token.GTR || c.Op == token.LSS || c.Op == token.NEQ)
+		})
+		sown := e.HasGuard(func(c *Cond) bool {
+			return c.Kind == "cmp" && c.P.MentionsRoot("GlobalVarsMain.SAAT") && strings.Contains(c.Key(), "zeit") && (c.Op == token.GEQ || c.Op == token.LEQ || c.Op == token.GTR || c.Op == token.LSS)
+		})
+		standing := e.HasGuard(func(c *Cond) bool {
+			return c.Kind == "cmp" && c.Op == token.EQL && c.P.MentionsRoot("GlobalVarsMain.ERNTE") && !c.P.MentionsRoot("GlobalVarsMain.ERNTE2")
+		})
+		r.Ob("tillage:postponement", p.Pos(e.Pos), set && sown && standing, fmt.Sprintf("tillage date += %s under: sowing date set %v, today compared with the sowing date %v, no harvest date yet %v (guards: %s)", d, set, sown, standing, clip(guardKeys(e.Guards), 200)))
+	}
+	if n == 0 {
+		r.Ob("tillage:postponement", "-", false, "the postponement of a due tillage was not found in the nitrogen routine")
+	}
+}
